@@ -263,6 +263,7 @@ class PlanInfo:
         sent because its dependency failed is no failure."""
         if res is not None:
             hit = {str(x["fetch"]) for x in res["exchanges"] if x["applied"]}
+            hit |= {str(e["a"]) for e in res["events"] if e["p"] == "deny"}  # rate limited: denied before anything is sent
             # a 5xx with a valid body that the gateway used (its merge added no error) is no failure either
             cnt = {}
             for e in res["events"]:
@@ -547,7 +548,7 @@ def run(ctx):
     if ctx.replay_in:
         return replay(ctx, binary)
     # ---- 1. model checking ------------------------------------------------------------------------
-    ctx.tlc_must_pass(["resolve"], "MC_FetchExec", "MC_FetchExec_3.cfg", workers=8, timeout=900, tag="mc-3")
+    ctx.tlc_must_pass(["resolve"], "MC_FetchExec", "MC_FetchExec_3q.cfg" if quick else "MC_FetchExec_3.cfg", workers=8, timeout=900, tag="mc-3")
     if not quick:
         ctx.tlc_must_pass(["resolve"], "MC_FetchExec", "MC_FetchExec_4.cfg", workers=8, timeout=2400, tag="mc-4", heap="12g")
     r = ctx.tlc(["resolve"], "MC_FetchExec", "MC_FetchExec_neg.cfg", workers=2, timeout=300, count=False, tag="mc-negative-control")
@@ -593,8 +594,8 @@ def run(ctx):
     small = [c for c in cases if c["nf"] <= 1 or c["all"]]
     big = [c for c in cases if not (c["nf"] <= 1 or c["all"])]
     rng.shuffle(big)
-    cap = 400 if quick else 10 ** 9
-    if quick and len(small) > 1200:
+    cap = 300 if quick else 10 ** 9
+    if quick and len(small) > 1500:
         # every (operation, fault assignment) at least once, the remaining completion orders sampled
         first, rest, seen = [], [], set()
         for c in small:
@@ -602,7 +603,7 @@ def run(ctx):
             (rest if k in seen else first).append(c)
             seen.add(k)
         rng.shuffle(rest)
-        small = first + rest[:max(0, 1200 - len(first))]
+        small = first + rest[:max(0, 1500 - len(first))]
     chosen = small + big[:cap]
     for i, c in enumerate(chosen):
         c["id"] = "c%06d" % i
@@ -685,6 +686,9 @@ def run(ctx):
         if verdict in PER_FETCH and 0 <= fid < pi.n:
             # these speak about one fetch: the one whose event made the invariant false
             key = fetch_key(pi, verdict, fid, r["case"]["faults"], r)
+        elif verdict.startswith("ErrPaths"):
+            # about the subgraph answers that carried errors
+            key = "%s:%s" % (verdict, pi.sig({k: v for k, v in r["case"]["faults"].items() if v in ("PartialData", "ErrorsNoData")}, r))
         else:
             key = "%s:%s" % (verdict, pi.sig(r["case"]["faults"], r))
         if verdict == "nonconformance":
@@ -746,6 +750,9 @@ def run(ctx):
         "distinct_plan_shapes": len(distinct_shapes),
         "generated_cases": len(cases),
         "unrealised_orders": unreal,
+        "second_request_other_operation": sum(1 for r in ok_results if r["case"].get("then")),
+        "rate_limited_cases": sum(1 for r in ok_results if "RateLimited" in r["case"]["faults"].values()),
+        "error_path_cases": sum(1 for r in ok_results if ERRMODE.get(r["op"]) and any(v in ("PartialData", "ErrorsNoData") for v in r["case"]["faults"].values())),
         "invariants_on_traces": INVS,
         "samples": ([{"case": sample["case"], "response": sample["response"], "events": sample["events"][:12]}] if sample else []),
         "exhaustive": not quick,
@@ -755,6 +762,8 @@ def run(ctx):
         "nullability of response positions comes from the supergraph SDL parsed with gqlparser (independent of the code under test)",
         "exchange -> fetch id correlation uses the ld.load hook fired in the goroutine that performs the request",
         "'promptly' = within 10 s of the request (in-process subgraphs answer in microseconds); a miss is re-run once",
+        "the second request of every history (same operation, or another operation sharing a subgraph request) runs fault-free on the same gateway after the faulty one",
+        "rate limiting: a harness RateLimiter denies the fetches TLC marked RateLimited; error paths: pass-through / RewriteSubgraphErrorPaths variants of three operations",
         "fault kinds: Transport, 500+HTML, empty body, non-JSON, errors without data, data:null, _entities one element short, "
         "data+errors (last entity / last root field nulled and reported), 503 with the genuine valid JSON body (may be used or rejected, consistently)",
     ]
